@@ -265,6 +265,9 @@ impl Check for C13 {
                 ctx.cov.distinct(mix(mix(s.kind_id(), m.word().bits() as u64), state_id(m.state()) as u64 * 2 + m.is_instruction_done() as u64));
                 // the state can be read ...
                 h ^= guard(|| read_everything(&m)).map_err(|e| viol("reading the getters after a stimulus", t, e))?;
+                if next % 4 == 0 {
+                    let _ = guard(|| crate::sut::debug_render(&m)).map_err(|e| viol("printing the machine with {:?} after a stimulus", t, e))?;
+                }
                 // ... and stepped further
                 guard(|| m.trigger_key_clock()).map_err(|e| viol("the clock edge after a stimulus", t, e))?;
                 ctx.cov.sim_edges += 1;
@@ -278,6 +281,7 @@ impl Check for C13 {
             }
         }
         h ^= guard(|| read_everything(&m)).map_err(|e| viol("reading the getters", scn.max_edges, e))?;
+        let _ = guard(|| crate::sut::debug_render(&m)).map_err(|e| viol("printing the machine with {:?}", scn.max_edges, e))?;
         ctx.tr(h);
         flush(&bits, ctx);
         Ok(())
